@@ -37,6 +37,10 @@ pub struct Case {
     pub late_if: Option<(IfSpec, u64)>,
     /// (at ms, service index, kind) query injected early.
     pub query: Option<(u64, usize, u8)>,
+    /// after everything is announced: (service index, what changes: 0 TXT, 1 port, 2 both) - the
+    /// service is registered again with other data
+    #[serde(default)]
+    pub update: Option<(usize, u8)>,
 }
 
 pub struct Planned {
@@ -249,10 +253,135 @@ pub fn check(case: &Case, ctx: &mut CaseCtx) {
     let last_reg = case.services.iter().map(|s| s.delay_ms).max().unwrap_or(0);
     let horizon = T0 + last_reg.max(case.late_if.map(|l| l.1 + 5000).unwrap_or(0)) + 250 + 750 + 1000 + 600;
     w.run_until(horizon);
+    let upto = w.daemons[di].log.len();
+    // second phase: one of the services is registered again with other data
+    let mut updated: Option<(usize, Planned)> = None;
+    if let Some((si, what)) = case.update {
+        let si = si % case.services.len();
+        if let Some(p) = planned[si].as_ref() {
+            let s = &case.services[si];
+            let ty = TYPES[s.ty % TYPES.len()];
+            let ty_arg = if s.sub { format!("_printer._sub.{ty}") } else { ty.to_string() };
+            let addr_str = p.addrs.iter().map(|a| a.to_string()).collect::<Vec<_>>().join(",");
+            let mut txt = s.txt.clone();
+            if what % 3 != 1 {
+                txt.push(("upd".to_string(), "1".to_string()));
+            }
+            let port = if what % 3 != 0 { s.port.wrapping_add(1).max(1) } else { s.port };
+            let props: Vec<(&str, &str)> = txt.iter().map(|(k, v)| (k.as_str(), v.as_str())).collect();
+            if let Ok(mut info) = ServiceInfo::new(&ty_arg, &s.inst, HOSTS[s.host % HOSTS.len()], addr_str.as_str(), port, &props[..]) {
+                if s.auto {
+                    info = info.enable_addr_auto();
+                }
+                if w.daemons[di].register(info).is_ok() {
+                    updated = Some((
+                        si,
+                        Planned {
+                            fullname: p.fullname.clone(),
+                            ty: p.ty.clone(),
+                            sub: p.sub.clone(),
+                            host: p.host.clone(),
+                            port,
+                            txt_rdata: txt_rdata(&txt),
+                            addrs: p.addrs.clone(),
+                            reg_time: horizon,
+                            auto: p.auto,
+                        },
+                    ));
+                }
+            }
+        }
+        w.run_until(horizon + 250 + 750 + 1000 + 600);
+    }
     ctx.count("sim_steps", w.total_steps);
 
-    judge(case, &w.daemons[di], &planned, &all_ifs, nifs0, late_at, horizon, ctx);
+    judge(case, &w.daemons[di], &planned, &all_ifs, nifs0, late_at, horizon, upto, ctx);
+    if ctx.violations.is_empty() {
+        if let Some((si, np)) = &updated {
+            judge_update(&w.daemons[di], planned[*si].as_ref().unwrap(), np, upto, ctx);
+        }
+    }
     w.finish();
+}
+
+/// The registration of an announced service with other data: on every interface and family on which
+/// the service had been announced, the new data is probed three times 250 ms apart and then announced
+/// twice, within the same bound as a first registration.
+fn judge_update(d: &SimDaemon, old: &Planned, new: &Planned, upto: usize, ctx: &mut CaseCtx) {
+    let detail = |what: String| format!("{what}\n--- history since the second registration ---\n{}", render_log(&d.log[upto.saturating_sub(1)..], true, 60));
+    if let Some(m) = &d.dead {
+        ctx.violation(format!("C07/daemon-died/{}", m.split(": ").next().unwrap_or("")), detail(format!("daemon died: {m}")));
+        return;
+    }
+    // where the service was announced before
+    let mut places: Vec<(u32, bool)> = Vec::new();
+    for e in &d.log[..upto] {
+        if let Ev::Tx(tx) = &e.ev {
+            if let (Some(m), Some(ix)) = (tx.msg.as_ref(), tx.if_index) {
+                if announces_s(m, false, old) && !places.contains(&(ix, tx.v4())) {
+                    places.push((ix, tx.v4()));
+                }
+            }
+        }
+    }
+    let carries_new = |m: &Message, sections_all: bool| {
+        let mut it: Box<dyn Iterator<Item = &Record>> = if sections_all { Box::new(m.all_records()) } else { Box::new(m.answers.iter()) };
+        let txt_changed = old.txt_rdata != new.txt_rdata;
+        let port_changed = old.port != new.port;
+        let mut txt_ok = !txt_changed;
+        let mut srv_ok = !port_changed;
+        for r in &mut it {
+            if !r.name.eq_ignore_case(&new.fullname) {
+                continue;
+            }
+            match &r.rdata {
+                RData::Txt(t) if *t == new.txt_rdata => txt_ok = true,
+                RData::Srv { port, .. } if *port == new.port => srv_ok = true,
+                _ => {}
+            }
+        }
+        txt_ok && srv_ok
+    };
+    for (ix, v4) in places {
+        let unit = format!("{} registered again on if{ix} {}", new.fullname.to_escaped(), if v4 { "IPv4" } else { "IPv6" });
+        let mut probes: Vec<u64> = Vec::new();
+        let mut anns: Vec<u64> = Vec::new();
+        for e in &d.log[upto..] {
+            if let Ev::Tx(tx) = &e.ev {
+                let (Some(m), Some(i2)) = (tx.msg.as_ref(), tx.if_index) else { continue };
+                if i2 != ix || tx.v4() != v4 {
+                    continue;
+                }
+                if is_probe_for(m, &new.fullname) && m.authorities.iter().any(|r| r.name.eq_ignore_case(&new.fullname)) && anns.is_empty() {
+                    probes.push(e.t);
+                }
+                if announces_s(m, false, new) && carries_new(m, false) {
+                    anns.push(e.t);
+                }
+            }
+        }
+        ctx.class("update-judged");
+        if anns.is_empty() {
+            ctx.violation("C07/update/never-announced", detail(format!("{unit}: the new data is not announced within {} ms ({} probe(s) sent)", 250 + 750 + 1000 + 600, probes.len())));
+            return;
+        }
+        if probes.len() < 3 {
+            ctx.violation("C07/update/fewer-than-three-probes", detail(format!("{unit}: {} probe(s) with the new data before its announcement at +{} ms", probes.len(), anns[0] - T0)));
+            return;
+        }
+        if probes.windows(2).any(|w| w[1] - w[0] < 250) {
+            ctx.violation("C07/update/probes-closer-than-250ms", detail(format!("{unit}: probe times {:?}", probes.iter().map(|t| t - T0).collect::<Vec<_>>())));
+            return;
+        }
+        if anns[0] < probes[probes.len() - 1] + 250 {
+            ctx.violation("C07/update/announced-less-than-250ms-after-last-probe", detail(format!("{unit}: probes {:?}, announcement +{} ms", probes.iter().map(|t| t - T0).collect::<Vec<_>>(), anns[0] - T0)));
+            return;
+        }
+        if anns.len() < 2 {
+            ctx.violation("C07/update/announced-only-once", detail(format!("{unit}: a single announcement of the new data at +{} ms", anns[0] - T0)));
+            return;
+        }
+    }
 }
 
 #[allow(clippy::too_many_arguments)]
@@ -264,6 +393,7 @@ fn judge(
     nifs0: usize,
     late_at: Option<u64>,
     horizon: u64,
+    upto: usize,
     ctx: &mut CaseCtx,
 ) {
     let fail = |ctx: &mut CaseCtx, sig: &str, detail: String| {
@@ -287,7 +417,7 @@ fn judge(
     let announces = |s: &Sent, p: &Planned| announces_s(s.m, s.solicited, p);
     let mut sent: Vec<Sent> = Vec::new();
     let mut pending_query = false;
-    for e in &d.log {
+    for e in &d.log[..upto] {
         match &e.ev {
             Ev::Rx { msg, .. } => {
                 if msg.as_ref().is_some_and(|m| !m.is_response()) {
@@ -541,8 +671,9 @@ pub fn strategy(tier_all_jitters: bool) -> BoxedStrategy<Case> {
         proptest::collection::vec(svc, 1..=4),
         proptest::option::weighted(0.3, (ifspec(), 0u64..6000)),
         proptest::option::weighted(0.5, (0u64..1300, 0usize..4, 0u8..4)),
+        proptest::option::weighted(0.3, (0usize..4, 0u8..3)),
     )
-        .prop_map(|(ifs, jitter, mut services, late_if, query)| {
+        .prop_map(|(ifs, jitter, mut services, late_if, query, update)| {
             // distinct instance names per type (a re-register of the same name is C09's domain)
             for i in 0..services.len() {
                 for j in 0..i {
@@ -570,6 +701,7 @@ pub fn strategy(tier_all_jitters: bool) -> BoxedStrategy<Case> {
                 services,
                 late_if,
                 query,
+                update,
             }
         })
         .boxed()
@@ -586,7 +718,7 @@ pub fn run(tier: Tier) -> i32 {
         &mut agg,
         &Part {
             name: "registrations",
-            rule: "1-4 registrations (fancy instance labels, subtype or not, v4/v6/both, explicit or automatic addresses, shared hosts, staggered by 0-1500 ms) on 1-3 interfaces, optional late interface, optional early query, scripted start jitter; judged per (service, interface, family) with an in-subnet address; \
+            rule: "1-4 registrations (fancy instance labels, subtype or not, v4/v6/both, explicit or automatic addresses, shared hosts, staggered by 0-1500 ms) on 1-3 interfaces, optional late interface, optional early query, scripted start jitter, optionally one service registered again with another TXT and/or port once everything is announced; judged per (service, interface, family) with an in-subnet address; \
                    non-trivial = at least one judged unit and (>=2 services or >=2 interfaces or shared host); distinct by (service count, interface layout, late interface, shared host, jitter bucket, query kind, delays)",
             cases: scale(tier.pick(16_000, 400_000)),
             max_shrink_iters: 600,
@@ -598,6 +730,7 @@ pub fn run(tier: Tier) -> i32 {
     agg.require_class("registrations:shared-host", 300);
     agg.require_class("registrations:late-interface-with-auto-service", 100);
     agg.require_class("registrations:ipv6", 300);
+    agg.require_class("registrations:update-judged", 500);
     agg.finish()
 }
 
